@@ -168,11 +168,22 @@ static std::vector<Op<OC>> make_ops(size_t n, size_t nh) {
 template <class SP>
 static std::string observe_spline(const SP &s) {
   std::string r = dump(s);
-  // a few evaluations (values are part of the observable state)
+  // evaluations are part of the observable state. The query order is deliberately non-monotone and ends
+  // inside the second interval while it starts at the second grid point, so that any evaluation-order
+  // dependent internal state (search hints, caches) left behind by one observation changes the next one.
   const auto &sup = s.getSupport();
   if (sup.getEndIndex() <= sup.getGrid().size() && sup.getStartIndex() < sup.getEndIndex() && s.getCoefficients().size() == sup.getEndIndex() - sup.getStartIndex() - 1) {
-    mpq_class lo = val(sup.getGrid()[sup.getStartIndex()]), hi = val(sup.getGrid()[sup.getEndIndex() - 1]);
-    for (const mpq_class &x : std::vector<mpq_class>{lo, mpq_class((lo + hi) / 2), mpq_class((lo + 3 * hi) / 4), hi}) r += " f(" + x.get_str() + ")=" + val(s(mk<S>(x))).get_str();
+    std::vector<mpq_class> g;
+    for (size_t i = sup.getStartIndex(); i < sup.getEndIndex(); i++) g.push_back(val(sup.getGrid()[i]));
+    std::vector<mpq_class> q;
+    for (size_t i = 1; i < g.size(); i++) q.push_back(g[i]);              // grid points ascending, starting at the second
+    q.push_back(g[0]);
+    for (size_t i = g.size() - 1; i >= 1; i--) {                            // interior points descending ...
+      if (i == 1 && g.size() > 2) break;                                    // ... but not into the first interval
+      q.push_back((g[i - 1] + 3 * g[i]) / 4);
+      q.push_back((g[i - 1] + g[i]) / 2);
+    }
+    for (auto &x : q) r += " f(" + x.get_str() + ")=" + val(s(mk<S>(x))).get_str();
   }
   r += " grid=" + vstr(gridpts(sup.getGrid()));
   return r;
